@@ -1350,18 +1350,24 @@ class TTNS(TTNBase):
                     new_shape.append(dim1 + dim2)
                     indices1.append(slice(0, dim1))
                     indices2.append(slice(dim1, dim1 + dim2))
-            dtype = np.promote_types(node1.tensor.dtype, node2.tensor.dtype)
+            if node1 is self.root:
+                # the prefactors of the two operands are folded into the root tensor
+                factor1, factor2 = self.coeff, other.coeff
+            else:
+                factor1, factor2 = 1, 1
+            dtype = np.result_type(node1.tensor.dtype, node2.tensor.dtype, np.asarray(factor1).dtype, np.asarray(factor2).dtype)
             new_node.tensor = np.zeros(new_shape, dtype=dtype)
             indices1 = tuple(indices1)
             indices2 = tuple(indices2)
-            new_node.tensor[indices1] = node1.tensor
+            new_node.tensor[indices1] = factor1 * node1.tensor
             # `+=`: for a single-node tree there is no virtual index and both slices cover the whole tensor
-            new_node.tensor[indices2] += node2.tensor
+            new_node.tensor[indices2] += factor2 * node2.tensor
             if node1 is self.root:
                 np.testing.assert_allclose(node1.qn, node2.qn)
                 new_node.qn = node1.qn.copy()
             else:
                 new_node.qn = np.concatenate([node1.qn, node2.qn], axis=0)
+        new.coeff = 1
         new.check_shape()
         # assert new.check_canonical()
         return new
